@@ -85,6 +85,12 @@ RoutePool(k) ==
   CASE k = "set-v4" -> Grid(PfxSeq4, SetShapes) \o <<Route("2001:db8:1::/48", 1)>>
     [] k = "set-v6" -> Grid(PfxSeq6, SetShapes) \o <<Route("10.1.1.0/24", 1)>>
     [] k = "walk"   -> Grid(PfxSeq4 \o PfxSeq6, AllShapeSeq)
+    [] k = "dup"    -> <<Route("10.1.1.0/24", 1), Route("10.1.0.0/16", 5), Route("10.1.1.128/25", 1),
+                         Route("10.1.1.0/24", 2), Route("11.0.0.0/8", 1)>>
+(* the two records of the duplicate-announcement sequences: one bucket (same prefix), same max
+   length, DupB sorts before DupA *)
+DupA == Rec("10.1.0.0/16", 24, 65001)
+DupB == Rec("10.1.0.0/16", 24, LocalAS)
 VerdictCode(v) == CASE v = "notfound" -> 0 [] v = "valid" -> 1 [] v = "invalid" -> 2
 
 (* ---- end-to-end pool: named routes injected through the API; sh = shape index ---- *)
